@@ -21,20 +21,20 @@ def install():
     C.shadow_module(FPI)
 
 
-def mklist(x, pfx, n, nonoverlap, ordered=False, dmin=0, dmax=D_MAX_MS):
+def mklist(x, pfx, n, nonoverlap, ordered=False, dmin=0, dmax=D_MAX_MS, us=False):
     T, D = [], []
     for i in range(n):
         k = x.zint("%sk%d" % (pfx, i), 0, T_MAX_MS)
         m = x.ranged("%sm%d" % (pfx, i), dmin, dmax)
         T.append(k * 1000)
-        D.append(m * 1000)
+        D.append(m * 1000 + (x.zint("%su%d" % (pfx, i), 0, 999) if us else 0))
     for i in range(n):
         for j in range(i + 1, n):
             if nonoverlap:
                 x.assume(Or(T[i] + D[i] <= T[j], T[j] + D[j] <= T[i]))
             if ordered:
                 x.assume(T[i] <= T[j])
-    evs = [mk_event(x, T[i], D[i], {"uid": "%s%d" % (pfx, i), "extra": [1, {"n": None}]}, id="%s-id-%d" % (pfx, i)) for i in range(n)]
+    evs = [mk_event(x, T[i], D[i], {"uid": "%s%d" % (pfx, i), "extra": [1, {"n": None}]}, id="%s-id-%d" % (pfx, i), dur_aligned=not us) for i in range(n)]
     return evs, T, D
 
 
